@@ -2,7 +2,7 @@
 # usage: seed_reuse.sh <SLOT> <NEWID>   reuse the warmed worktree /tmp/seed/<SLOT> for another property
 slot=$1; id=$2; d=/tmp/seed/$slot
 mkdir -p /tmp/seed/done/$slot-$(date +%s); mv $d/out /tmp/seed/done/$slot-$(date +%s)/ 2>/dev/null; mkdir -p $d/out
-git -C $d/repo checkout -q -- . ; git -C $d/repo clean -fdq
+git -C $d/repo checkout -q -- . ; git -C $d/repo clean -fdq; git -C $d/repo checkout -q --detach $(git -C /repo rev-parse HEAD)
 python3 - "$id" > $d/PROPERTY.json <<'PY'
 import json,sys
 for l in open('/verif/properties.jsonl'):
